@@ -38,7 +38,7 @@ def run(rep):
     procs = []
     for i, ch in enumerate(chunks):
         ranges = [[st[0][len('musicxml/'):], st[2], st[3]] for st in (code.get('class_level_stores') or []) + (code.get('lazy_instance_stores') or []) + [[x[0], x[1], x[2], x[3]] for x in (code.get('shared_table_mutations') or [])]]
-        job = {'ranges': ranges, 'scenarios': [list(x) for x in ch], 'max_points': 60 if quick else 1500, 'seed': rep.seed * 10 + i, 'values': VALUES}
+        job = {'ranges': ranges, 'scenarios': [list(x) for x in ch], 'max_points': 40 if quick else 1500, 'must_occurrences': 2 if quick else 3, 'seed': rep.seed * 10 + i, 'values': VALUES}
         p = subprocess.Popen([C.PY, '-W', 'ignore', os.path.join(C.VERIF, 'corr', 'c20_runner.py')], stdin=subprocess.PIPE, stdout=subprocess.PIPE,
                              stderr=subprocess.PIPE, text=True, env=C.impl_env())
         procs.append((p, json.dumps(job)))
